@@ -1,6 +1,6 @@
 (* Proofs about Model/Replicas.v (property C04). *)
 From SV Require Import Base.Prelude Model.Ring Model.Shard Model.Replicas Proofs.Ring_proofs.
-From Coq Require Import Permutation.
+From Coq Require Import Permutation Sorted.
 Open Scope Z_scope.
 
 (* ---------------------------------------------------------------- small list facts *)
@@ -217,6 +217,94 @@ Proof. split; [apply views_ok_sound|apply views_ok_complete]. Qed.
 Lemma precomputed_ok_sound np iter : precomputed_ok np iter = true <->
   NoDup np /\ NoDup iter /\ (forall x, In x np <-> In x iter).
 Proof. exact (same_set_spec np iter). Qed.
+
+(* position of the first occurrence of x in the walk w (its length when x does not occur) *)
+Fixpoint first_pos (x : N) (w : list N) : nat :=
+  match w with
+  | [] => O
+  | y :: r => if N.eqb x y then O else S (first_pos x r)
+  end.
+
+Lemma StronglySorted_weaken {A} (R R' : A -> A -> Prop) l :
+  (forall a b, In a l -> In b l -> R a b -> R' a b) -> StronglySorted R l -> StronglySorted R' l.
+Proof.
+  induction l as [|x r IH]; intros Hi Hs; [constructor|].
+  apply StronglySorted_inv in Hs. destruct Hs as [Hs Hf]. constructor.
+  - apply IH; [|assumption]. intros a b Ha Hb. apply Hi; now right.
+  - rewrite Forall_forall in *. intros y Hy. apply Hi; [now left|now right|now apply Hf].
+Qed.
+
+Lemma StronglySorted_filter {A} (R : A -> A -> Prop) f l :
+  StronglySorted R l -> StronglySorted R (filter f l).
+Proof.
+  induction 1 as [|x r Hs IH Hf]; [constructor|]. cbn [filter]. destruct (f x); [|assumption].
+  constructor; [assumption|]. rewrite Forall_forall in *. intros y Hy. apply filter_In in Hy. now apply Hf.
+Qed.
+
+Lemma uniq_aux_first_pos seen w :
+  StronglySorted (fun a b => (first_pos a w < first_pos b w)%nat) (uniq_aux N.eqb seen w).
+Proof.
+  revert seen. induction w as [|x r IH]; intros seen; [constructor|]. cbn [uniq_aux].
+  assert (Hstep : forall s, (forall z, In z (uniq_aux N.eqb s r) -> z <> x) ->
+            StronglySorted (fun a b => (first_pos a (x :: r) < first_pos b (x :: r))%nat) (uniq_aux N.eqb s r)).
+  { intros s Hne. apply (StronglySorted_weaken (fun a b => (first_pos a r < first_pos b r)%nat)); [|apply IH].
+    intros a b Ha Hb Hlt. cbn [first_pos].
+    destruct (N.eqb a x) eqn:Ea; [apply N.eqb_eq in Ea; now apply Hne in Ha|].
+    destruct (N.eqb b x) eqn:Eb; [apply N.eqb_eq in Eb; now apply Hne in Hb|]. lia. }
+  destruct (mem_by N.eqb x seen) eqn:Em.
+  - apply Hstep. intros z Hz ->. apply uniq_aux_In in Hz; [|exact Neqb_eq]. apply mem_by_In in Em; [|exact Neqb_eq]. tauto.
+  - assert (Hne : forall z, In z (uniq_aux N.eqb (x :: seen) r) -> z <> x).
+    { intros z Hz ->. apply uniq_aux_In in Hz; [|exact Neqb_eq]. destruct Hz as [_ Hz]. apply Hz. now left. }
+    constructor; [now apply Hstep|]. apply Forall_forall. intros z Hz. cbn [first_pos]. rewrite N.eqb_refl.
+    destruct (N.eqb z x) eqn:Ez; [apply N.eqb_eq in Ez; now apply Hne in Hz|]. lia.
+Qed.
+
+Lemma sorted_unique {A} (R : A -> A -> Prop) l l' :
+  (forall a, ~ R a a) -> (forall a b, R a b -> R b a -> False) ->
+  StronglySorted R l -> StronglySorted R l' -> (forall x, In x l <-> In x l') -> l = l'.
+Proof.
+  intros Hir Has. revert l'. induction l as [|x r IH]; intros [|y r'] Hs Hs' Hi.
+  - reflexivity.
+  - exfalso. apply (proj2 (Hi y)). now left.
+  - exfalso. apply (proj1 (Hi x)). now left.
+  - apply StronglySorted_inv in Hs. destruct Hs as [Hs Hf]. apply StronglySorted_inv in Hs'. destruct Hs' as [Hs' Hf'].
+    rewrite Forall_forall in Hf, Hf'.
+    assert (x = y) as ->.
+    { destruct (proj1 (Hi x) (or_introl eq_refl)) as [E|Hx]; [now symmetry|].
+      destruct (proj2 (Hi y) (or_introl eq_refl)) as [E|Hy]; [assumption|].
+      exfalso. apply (Has x y); [now apply Hf|now apply Hf']. }
+    f_equal. apply IH; try assumption. intros z. split; intros Hz.
+    + destruct (proj1 (Hi z) (or_intror Hz)) as [E|H]; [|assumption]. subst z. exfalso. apply (Hir y). now apply Hf.
+    + destruct (proj2 (Hi z) (or_intror Hz)) as [E|H]; [|assumption]. subst z. exfalso. apply (Hir y). now apply Hf'.
+Qed.
+
+Lemma sorted_lt_NoDup {A} (f : A -> nat) l : StronglySorted (fun a b => (f a < f b)%nat) l -> NoDup l.
+Proof.
+  induction 1 as [|x r Hs IH Hf]; constructor; [|assumption].
+  intros Hx. rewrite Forall_forall in Hf. specialize (Hf x Hx). cbn beta in Hf. lia.
+Qed.
+
+(* what the ring-order predicate of the correspondence driver means: the ordered view names
+   exactly the iterated nodes that own a token, each once, in the order in which the clockwise
+   walk from the token (C04_ring_range) first reaches them *)
+Theorem ordered_ok_spec (g : ring N) t iter ordered :
+  ordered_ok g t iter ordered = true <->
+  NoDup ordered /\
+  (forall x, In x ordered <-> In x iter /\ In x (ring_range g t)) /\
+  StronglySorted (fun x y => (first_pos x (ring_range g t) < first_pos y (ring_range g t))%nat) ordered.
+Proof.
+  unfold ordered_ok. rewrite list_eqb_spec. set (w := ring_range g t).
+  assert (Hm : forall x, In x (filter (fun x => mem x iter) (uniq w)) <-> In x iter /\ In x w).
+  { intros x. rewrite filter_In. unfold uniq. rewrite (uniq_by_In N.eqb Neqb_eq). unfold mem. rewrite (mem_by_In N.eqb Neqb_eq). tauto. }
+  assert (Hsrt : StronglySorted (fun x y => (first_pos x w < first_pos y w)%nat) (filter (fun x => mem x iter) (uniq w))).
+  { apply StronglySorted_filter. apply uniq_aux_first_pos. }
+  split.
+  - intros ->. split; [eapply sorted_lt_NoDup; exact Hsrt|]. split; assumption.
+  - intros (_ & Hi & Hs). apply (sorted_unique (fun x y => (first_pos x w < first_pos y w)%nat)); [| |exact Hs|exact Hsrt|].
+    + intros a. lia.
+    + intros a b. lia.
+    + intros x. rewrite Hi, Hm. tauto.
+Qed.
 
 Section Topo.
   Variables (dcf rackf : N -> option N).
